@@ -16,6 +16,7 @@ ASSUMPTIONS = [
     'continuous parameters (mu~, loss tangent, w~2, r0/R, R, rho) are decided on the stated grid only',
     '"effectively incompressible" = K set per case to 1e7*max(|mu|, rho g R, (rho g R)^2/|mu|); compressible families are '
     'inadmissible by conditioning when that exceeds 1e9*|mu| (mu~ < 0.1); such bodies are covered by the incompressible Kamata family',
+    'Takeuchi starts with (r0/R)^l < 1e-15 (below the absolute tolerance) are inadmissible by conditioning',
     'asserted only for cases that pass the convergence gate (success at (rtol,atol) and (rtol/100,atol/100), the two agree)',
     'uniform sphere sampled on a 60-slice linspace grid from r0 to R (uniform bodies are grid independent to 1e-15, DESIGN C03)',
 ]
@@ -51,13 +52,27 @@ GATE = 1e-6                   # the two runs must agree to this (absolute, O(1) 
 MAX_STEPS = 200000            # deterministic work cap per integration; exhaustion = solver failure = inadmissible
 WALL_BUDGET_S = 30.0          # per solve; overrun = inadmissible:timeout (never a violation)
 N_SLICES = 60
+START_UNDERFLOW = 1e-15       # = ATOL/1000
 
-# ---- tolerance budget (calibrated on the pristine tree, thorough lattice, seeds 0..4; see report) -----------------
-C_DYN = 2.0                   # x w~2   (measured worst |err|/w~2 over admitted dynamic Kamata cases: see CALIBRATION)
-C_K = 10.0                    # x (rho g R)^2/(|mu| K)
+# ---- tolerance budget (calibrated on the pristine tree, thorough lattice; see the builder report) -----------------
+#   tol = GATE_FACTOR*gate + C_DYN*w~2 [dynamic] + C_K*(rho g R)^2/(|mu| K) [compressible] + floor
+#   measured (seed 0, 77760 cases): genuine inertial correction (err - 10 gate)/w~2 <= 0.24 (compressible Kamata, mu~=0.3, l=2),
+#   <= 1.6 (incompressible Kamata, mu~=0.05); static Kamata err <= 9.4e-9 (DOP853), 6.3e-10 (RK45).
+C_DYN = 5.0
+C_K = 1.0
 TOL_FLOOR = 1e-7
 GATE_FACTOR = 10.0
-# known-finding law (DESIGN C01 KF / C04 y6 slot swap): Takeuchi-dynamic error <= Y6_LAW * w~2/mu~
+# Kamata dynamic-incompressible is ill-conditioned in the quasi-static regime (DESIGN C01 "Gate"): runs that agree with
+# their rtol/100 twin to 1e-10 are still off by up to 8e-7 (DOP853) / 2.9e-5 (RK45) through amplified rounding / atol
+# interplay that no two-level gate can see.  Its floor is therefore per integrator (>= 10x the pristine worst).
+KDI_FLOOR = {'DOP853': 2e-5, 'RK45': 3e-4, 'RK23': 3e-4}
+# known-finding laws (root cause: y6 slot swap in starting/takeuchi.pyx, see C04): the defective Takeuchi starting vectors
+# excite the irregular solutions, which decay like (r0/R)^(2l+1):
+#   static part  err <= A_S * (r0/R)^(2l+1)                          (measured 0.9..1.3 at l=2, r0/R=0.05)
+#   dynamic part err <= A_D * w~2 * (1 + 1/mu~) * (r0/R)^(2l+1)      (measured 1.6e6 and 1.3e7 at l=2; 2.6e7 at l=3)
+# and, as in DESIGN, never more than Y6_LAW * w~2/mu~ (+ static part).
+A_S = 15.0
+A_D = 4.0e8
 Y6_LAW = 1e4
 
 SEED_FACTORS = [1.0, 1.07, 0.93, 1.31, 0.77, 1.19]
@@ -109,7 +124,22 @@ def budget(c, p, gate_diff):
         t += C_DYN * c['w2']
     if not inc:
         t += C_K * p['pgr'] ** 2 / (p['amu'] * p['K'])
+    else:
+        t += KDI_FLOOR[c['meth']]
     return t
+
+
+def classify(c, err):
+    """Site of a closed-form violation of size `err` (the narrow signatures of the known Takeuchi finding, else fresh)."""
+    fam = c['fam']
+    decay = c['r0f'] ** (2 * c['l'] + 1)
+    if fam == 'takeuchi-static' and err <= A_S * decay:
+        return 'C01/takeuchi-static/y6-slot-r0-law'
+    if fam == 'takeuchi-dynamic':
+        wm = c['w2'] / c['mt']
+        if err <= decay * (A_S + A_D * c['w2'] * (1.0 + 1.0 / c['mt'])) and err <= Y6_LAW * wm + A_S * decay:
+            return 'C01/takeuchi-dynamic/y6-slot-law'
+    return f'C01/{fam}/closed-form'
 
 
 def solve_pair(c, p, rtol=RTOL, atol=ATOL, n=N_SLICES):
@@ -149,6 +179,10 @@ def run_case(c):
     p = physical(c)
     if (not inc) and p['K'] > 1e9 * p['amu']:
         return dict(status='inadmissible:conditioning', viol=[], obs=None)
+    if (not kam) and c['r0f'] ** c['l'] < START_UNDERFLOW:
+        # Takeuchi's vectors scale like (r0/R)^l (Kamata's are normalised): below the absolute tolerance the first steps are
+        # uncontrolled and the two gate runs agree on a wrong value (pristine: l=10, r0/R=1e-3: 1.6e-6)
+        return dict(status='inadmissible:start-underflow', viol=[], obs=None)
     status, a, b, info = solve_pair(c, p, rtol=c.get('rtol', RTOL), atol=c.get('atol', ATOL))
     if status == 'exc':
         return dict(status='pass', viol=[(f'C01/{fam}/exception/{info["exc"]}', dict(msg=info.get('message')))], obs=None)
@@ -167,11 +201,8 @@ def run_case(c):
     if not (err <= tol):
         which = 'khl'[int(np.argmax(errs))]
         detail = dict(err=err, tol=tol, gate=gate, worst=which, got=b, want=ref, w2=c['w2'], mt=c['mt'],
-                      law_ratio=err / (c['w2'] / c['mt']) if not st else None)
-        if fam == 'takeuchi-dynamic' and err <= Y6_LAW * c['w2'] / c['mt']:
-            viol.append(('C01/takeuchi-dynamic/y6-slot-law', detail))
-        else:
-            viol.append((f'C01/{fam}/closed-form', detail))
+                      err_over_r0_decay=err / c['r0f'] ** (2 * c['l'] + 1))
+        viol.append((classify(c, err), detail))
     obs = tuple(round(float(x), 9) for x in (b[0].real, b[0].imag, b[1].real, b[2].real))
     return dict(status='pass', viol=viol, obs=obs, err=err, tol=tol, gate=gate)
 
@@ -181,8 +212,11 @@ def replay(case):
 
 
 # vacuity guards per (family, integrator) block: fraction of the non-conditioning-excluded cases that pass the gate
-MIN_ADMIT = {'RK23': 0.25}
-MIN_ADMIT_DEFAULT = 0.60
+# (pristine admission, thorough seed 0: Kamata-static/-dynamic-compressible 78/96/92 % for DOP853/RK45/RK23, Takeuchi
+#  67/75/66 %, Kamata-dynamic-incompressible 50 % / 7 % / 0.1 % -- the last two blocks are (nearly) vacuous and say so)
+MIN_ADMIT_DEFAULT = 0.40
+MIN_ADMIT = {('kamata-dynamic-incompressible', 'DOP853'): 0.25, ('kamata-dynamic-incompressible', 'RK45'): 0.0,
+             ('kamata-dynamic-incompressible', 'RK23'): 0.0}
 
 
 def run(ctx):
@@ -198,7 +232,7 @@ def run(ctx):
     blocks = {}
     for c, r in zip(cs, res):
         st = r.get('status', 'pass')
-        if st == 'inadmissible:conditioning':
+        if st in ('inadmissible:conditioning', 'inadmissible:start-underflow'):
             continue
         b = blocks.setdefault((c['fam'], c['meth']), [0, 0])
         b[1] += 1
@@ -212,9 +246,9 @@ def run(ctx):
     ctx.coverage['admitted_by_block'] = {f'{k[0]}/{k[1]}': f'{v[0]}/{v[1]}' for k, v in sorted(blocks.items())}
     ctx.coverage['worst_err_over_tol_by_family'] = {k: float('%.3g' % v) for k, v in sorted(worst.items())}
     ctx.coverage['tolerance'] = dict(rtol=RTOL, atol=ATOL, gate=GATE, c_dyn=C_DYN, c_K=C_K, floor=TOL_FLOOR,
-                                     gate_factor=GATE_FACTOR, y6_law=Y6_LAW)
+                                     gate_factor=GATE_FACTOR, kdi_floor=KDI_FLOOR, a_s=A_S, a_d=A_D, y6_law=Y6_LAW)
     for (fam, meth), (adm, tot) in sorted(blocks.items()):
-        need = MIN_ADMIT.get(meth, MIN_ADMIT_DEFAULT)
+        need = MIN_ADMIT.get((fam, meth), MIN_ADMIT_DEFAULT)
         if tot and adm < need * tot:
             raise HarnessError(f'vacuity guard: block ({fam}, {meth}) admits only {adm}/{tot} cases (< {need:.0%}); '
                                f'no verdict')
